@@ -18,6 +18,10 @@ NEAR_MISS_NAMES = [
     "arr", "floaty", "inty", "fork", "ink", "typed", "versions", "targets", "included", "Truex", "pi2",
     "sinx", "logx", "expo", "sqrt2", "Measure1", "MeasureX_1", "qq1", "q_1", "A", "B", "U", "A0", "A1", "M", "P0", "pa",
     "j", "J", "d", "b", "c", "beta_1", "w", "v", "u", "lam", "re", "im", "oo", "zoo", "nan", "li", "Si", "Ci", "gamma_", "ff",
+    # names the package uses itself for the fields of an operation, a graph node or a program
+    "modes", "args", "kwargs", "op", "options", "idx", "parameters", "variables", "func", "regrefs", "expr",
+    # look like p-names to a lenient reader
+    "p1_0", "p10_2", "p0_0", "p1_",
 ]
 PY_KEYWORDS = ["lambda", "is", "as", "if", "or", "and", "not", "del", "def", "from", "pass", "None", "class", "try"]
 GATE_NAMES = ["Sgate", "Dgate", "BSgate", "Rgate", "Vac", "Coherent", "Fock", "S2gate", "Xgate", "Zgate", "Kgate",
@@ -259,6 +263,14 @@ class Gen:
         if self.coin(self.o["func_of_param"]):
             self.tags.add("func-of-param")
             return "{%s}" % self.param()
+        if self.coin(0.15):
+            # the ends of the (closed) real domains, and other arguments with an exactly representable image
+            ends = {"arcsin": ["1", "-1", "1.0", "-1.0", "4/2-1", "0"], "arccos": ["1", "-1", "1.0", "-1.0", "2-1", "0"], "arccosh": ["1", "1.0", "3-2"],
+                    "sqrt": ["0", "0.0", "1", "4"], "log": ["1", "1.0"], "arctanh": ["0", "0.0", "-0.0"], "exp": ["0", "-0.0"], "tan": ["0", "-0.0"],
+                    "sin": ["0", "-0.0"], "cos": ["0", "pi"], "sinh": ["0", "-0.0"], "cosh": ["0"], "tanh": ["0", "-0.0"], "arcsinh": ["0", "-0.0"], "arctan": ["0", "-0.0", "1"]}
+            if f in ends:
+                self.tags.add("func-at-domain-end")
+                return r.choice(ends[f])
         if f in ("arcsin", "arccos", "arctanh"):
             return r.choice(["0.3", "0.5", "-0.25", "1/3", "0.1*2", "0", "sin(1)/2", "0.9"])
         if f == "arccosh":
@@ -339,6 +351,10 @@ class Gen:
                 e = r.choice(["True", "False"])
             else:
                 e = self.string()
+            if vt in ("int", "float", "complex") and self.coin(0.02):
+                # the ends of the signed 64-bit range, written as signed literals
+                e = r.choice(["-9223372036854775808", "9223372036854775807", "-9223372036854775807", "-(9223372036854775808)", "- 9223372036854775808"])
+                self.tags.add("int64-end-initialiser")
             text = "%s %s%s=%s%s" % (vt, nm, self.sp(), self.sp(), e)
             before = dict(self.it.env)
             if self.feed(text) and nm in self.it.env and isinstance(self.it.env[nm], (V, refsem.Sym)):
@@ -398,6 +414,19 @@ class Gen:
         """One argument value: expression, literal, variable, string, bool."""
         r = self.r
         c = r.random()
+        if self.coin(0.012):
+            # integer literals at and beyond the ends of the signed/unsigned 64-bit ranges, with and without a sign
+            self.tags.add("int-beyond-int64")
+            return r.choice(["9223372036854775808", "-9223372036854775808", "-9223372036854775809", "9223372036854775807", "18446744073709551615",
+                             "18446744073709551616", "-18446744073709551616", "100000000000000000000", "-(9223372036854775808)", "+9223372036854775808",
+                             "-9223372036854775807", "1" + "0" * 30])
+        if allow_sym and self.o["params"] and self.coin(0.04):
+            # a power with a numeric base of extreme magnitude (exponent notation) and a symbolic exponent, negated or
+            # subtracted: the forms whose printed text needs brackets to keep its meaning
+            big = r.choice(["3e15", "2.5e18", "1e16", "1.0e+20", "9.9e15", "1e22", "2.5e-5", "1e-7", "1.5e-12", "4.0E+1"])
+            self.tags.add("extreme-base-power-of-parameter")
+            pw = "%s**{%s}" % (big, self.param())
+            return r.choice(["-(%s)", "-%s", "{" + self.param() + "} - %s", "1 - 2*%s", "-(%s)*2"]) % pw
         if c < 0.20:
             if allow_str:
                 if c < 0.08:
@@ -480,6 +509,12 @@ class Gen:
         used = set()
         for _ in range(r.choice([0, 0, 1, 1, 2, 3] + ([7, 10] if self.o["big"] else []))):
             k = self.ident(fresh=False)
+            if self.coin(0.06):
+                # names the package uses itself for fields of an operation / a graph node / a program
+                k = r.choice(["modes", "args", "kwargs", "op", "idx", "options", "parameters", "variables", "operations", "self", "cls", "key", "val", "expr", "func", "regrefs"])
+                if not self.is_name(k):
+                    continue
+                self.tags.add("keyword-named-like-a-field")
             if k in used:
                 continue
             used.add(k)
@@ -603,7 +638,11 @@ class Gen:
                 continue
             used.add(k)
             c = r.random()
-            if c < 0.35:
+            if self.o.get("opt_params", 0.0) and self.coin(self.o["opt_params"]):
+                # a template parameter inside a metadata option (only checks that do not need the reference's verdict ask for this)
+                v = r.choice(["{%s}", "2*{%s}", "{%s} + 1"]) % self.param()
+                self.tags.add("parameter-in-metadata-option")
+            elif c < 0.35:
                 v = self.int_lit(0, 100)
             elif c < 0.5:
                 v = self.float_lit()
@@ -671,7 +710,7 @@ def script(rng, grammar, n_stmts=(3, 12), **opts):
                     t = g.decl_array(name="p%d" % r.choice([0, 1, 2, 3, 7, 42]), rows=r.choice([1, 1, 2]), param_p=0.0)
                 else:
                     old = [n_ for n_ in g.arrays if n_ not in g.it.prog.pnames]
-                    plike = r.choice(["p0_left", "p1a", "pp0", "p2x", "ppp12", "p_1"]) if g.o["tdm"] and g.coin(0.3) else None
+                    plike = r.choice(["p0_left", "p1a", "pp0", "p2x", "ppp12", "p_1", "p1_0", "p10_2", "p0_0", "p1_", "p1_000"]) if g.o["tdm"] and g.coin(0.3) else None
                     if plike and plike not in g.used:
                         g.used.add(plike)
                         t = g.decl_array(name=plike, param_p=0.0)
